@@ -20,10 +20,12 @@ KF_FILE = VERIF / "known_findings.json"
 
 
 def load_findings(prop: str) -> dict:
-    if not KF_FILE.exists():
-        return {}
-    data = json.loads(KF_FILE.read_text())
-    return {e["id"]: e for e in data.get("findings", []) if e["property"] == prop}
+    entries = []
+    if KF_FILE.exists():
+        entries += json.loads(KF_FILE.read_text()).get("findings", [])
+    for f in sorted((VERIF / "findings").glob("*.json")):      # per-property fragments (merged view)
+        entries += json.loads(f.read_text()).get("findings", [])
+    return {e["id"]: e for e in entries if e["property"] == prop}
 
 
 class Verdicts:
